@@ -285,6 +285,16 @@ theorem stepCheck_accepts_iff (cfg : Cfg) (hno : cfg.noOpt = false) (st : State)
     simp only [hov, hcap, hno, hv, ho, Bool.false_and, Bool.or_false, Bool.false_eq_true, if_false]
     exact ⟨_, _, _, rfl⟩
 
+/-- the plain monitor rejects a raise when no sub-net is oversize (no numba cap, within the
+neighbour cap) -/
+theorem stepCheck_none_bad (cfg : Cfg) (hnc : cfg.numbaCap = false) (st : State) (t : Int)
+    (dsts : List Pos) (hcap : cappedB cfg st t dsts = false)
+    (hov : oversizeB cfg (stepGroups cfg st t dsts) = false) :
+    ∃ why, stepCheck cfg st t dsts none = .bad why := by
+  unfold stepCheck
+  simp only [hov, hcap, hnc, Bool.false_and, Bool.false_eq_true, if_false]
+  exact ⟨_, rfl⟩
+
 /-- a sub-net that has a source has a destination -/
 theorem group_dsts_ne (cfg : Cfg) (st : State) (t : Int) (dsts : List Pos) (g : Group)
     (hg : g ∈ stepGroups cfg st t dsts) (hne : g.1 ≠ []) : g.2 ≠ [] := by
